@@ -5,7 +5,11 @@ use crate::nat::Nat;
 use crate::tx::{Kind, Tx};
 
 #[derive(Clone, Copy, Debug, PartialEq, Eq)]
-pub enum Spell { Auto, JsonInt, Dec, Hex, HexUpper, Float }
+pub enum Spell { Auto, JsonInt, Dec, Hex, HexUpper, Float,
+    /// a bare JSON integer literal whenever the value is below 2^64 (exactly representable or not), else a hex string
+    JsonIntIfU64,
+    /// `<n>.0` whenever the value is below 2^53 (the MUST-ACCEPT float range), else a decimal string
+    FloatIfExact }
 
 pub fn num(n: &Nat, sp: Spell) -> J {
     match sp {
@@ -15,6 +19,8 @@ pub fn num(n: &Nat, sp: Spell) -> J {
         Spell::Hex => J::Str(format!("0x{}", n.to_hex())),
         Spell::HexUpper => J::Str(format!("0x{}", n.to_hex().to_uppercase())),
         Spell::Float => J::Num(format!("{}.0", n.to_dec())),
+        Spell::JsonIntIfU64 => if *n < Nat::pow2(64) { J::Num(n.to_dec()) } else { J::Str(format!("0x{}", n.to_hex())) },
+        Spell::FloatIfExact => if *n < Nat::pow2(53) { J::Num(format!("{}.0", n.to_dec())) } else { J::Str(n.to_dec()) },
     }
 }
 pub fn addr(a: &[u8; 20]) -> J { J::Str(format!("0x{}", hex(a))) }
